@@ -86,7 +86,10 @@ def add_import_surface(rng, ir, comp_src=0.0, src_versions=None):
                                  if x != kt0] or ["identifier"])
                 te = {"name": "pte0", "kind": "concrete",
                       "extends": bt["name"], "implements": "abx",
-                      "keytype": kt, "datatype": None, "items": []}
+                      "keytype": kt, "datatype": None, "items": [],
+                      # (names another value type than its base: nothing
+                      # that concerns the base type)
+                      "valuetype": rng.choice([None, "integer", "boolean"])}
                 own.append(te)
                 ctypes[pname] = [t, te]
         if comp_src and rng.random() < comp_src:
